@@ -250,6 +250,24 @@ class Batch(list):
         return [list.__getitem__(self, i) for i in range(self.taken, len(self))]
 
 
+class InlinePool:
+    """stands in for DataServer.ds_proc_tp: the submitted job (send_payload / store_payload: shm reads and writes, the data
+    server's own send_data - C07's subject) is NOT run; the Future is done at once, so `maybe_clean` / `wait` never block"""
+
+    def __init__(self, *a, **k):
+        self.submitted = []
+
+    def submit(self, fn, *args):
+        from concurrent.futures import Future
+        self.submitted.append((getattr(fn, "__name__", "?"), args))
+        f = Future()
+        f.set_result(1)
+        return f
+
+    def shutdown(self, *a, **k):
+        pass
+
+
 class StubProc:
     exitcode = None
     pid = 1
@@ -285,6 +303,8 @@ class Sim:
     @contextlib.contextmanager
     def installed(self, max_retries=None):
         comms, bridge_mod = self.comms, self.bridge_mod
+        import cascade.executor.data_server as ds_mod
+        saved_ds = (ds_mod.time_ns, ds_mod.shm_client.purge, ds_mod.callback)
         saved = (comms.get_socket, comms.get_context, comms.zmq, comms.time, bridge_mod.time,
                  comms.max_retries_per_message)
         sim = self
@@ -300,6 +320,8 @@ class Sim:
         clock = FakeClock(sim)
         comms.time = clock
         bridge_mod.time = clock
+        ds_mod.time_ns = clock.time_ns
+        ds_mod.shm_client.purge = lambda key: None      # the shm side of a purge is C07/C08's subject
         if max_retries is not None:
             comms.max_retries_per_message = max_retries
         try:
@@ -310,6 +332,7 @@ class Sim:
                     e.coro.stop()
             (comms.get_socket, comms.get_context, comms.zmq, comms.time, bridge_mod.time,
              comms.max_retries_per_message) = saved
+            ds_mod.time_ns, ds_mod.shm_client.purge, ds_mod.callback = saved_ds
 
     # ---- interning
     @staticmethod
@@ -401,6 +424,8 @@ class Ep:
             self._mk_bridge(hosts)
         elif kind == "executor":
             self._mk_executor()
+        elif kind == "dataserver":
+            self._mk_dataserver()
 
     # -- observation wrappers (instance attributes shadowing the methods; no repo change)
     def _wrap(self):
@@ -515,6 +540,26 @@ class Ep:
         self.loop = "Executor.recv_loop"
         self.coro_fn = x.recv_loop
 
+    def _mk_dataserver(self):
+        """the REAL DataServer, built by its own __init__ (module globals replaced for the duration of the call: the
+        Listener is this endpoint's, no thread pool, no shm port), running its real recv_loop"""
+        import cascade.executor.data_server as D
+        import logging.config as lc
+        saved = (D.Listener, D.ThreadPoolExecutor, D.shm_api.publish_client_port, lc.dictConfig)
+        ep = self
+        try:
+            D.Listener = lambda addr: ep.listener
+            D.ThreadPoolExecutor = InlinePool
+            D.shm_api.publish_client_port = lambda port: None
+            lc.dictConfig = lambda cfg: None
+            d = D.DataServer(maddress=f"tcp://nomaddr{self.a}", daddress=self.listener.address, host=f"h{self.a}", shm_port=0,
+                             logging_config={})
+        finally:
+            D.Listener, D.ThreadPoolExecutor, D.shm_api.publish_client_port, lc.dictConfig = saved
+        self.obj = d
+        self.loop = "DataServer.recv_loop"
+        self.coro_fn = d.recv_loop
+
     # -- application level: what the loop body takes
     def stages(self, m):
         """inside Bridge.recv_events an Event is only collected; the controller gets it when the call returns"""
@@ -555,6 +600,9 @@ class Ep:
     def digest(self, wire_from, extra=None):
         sim = self.sim
         s = self.sender
+        if getattr(sim, "light", False):
+            # oracle-only histories (the long family): no state digest (it is quadratic in the history length)
+            return dict({"ep": self.a}, **(extra or {}))
         infl = []
         for idx in sorted(s.inflight):
             r = s.inflight[idx]
